@@ -145,6 +145,16 @@ def _random_walk(draw, hi):
     return {"g": g, "kind": "solved", "sol": [list(q) for q in p], "seq": seq}
 
 
+@st.composite
+def _big(draw, shortest):
+    base = draw(G.big_int8_case(shortest=shortest))
+    base["kind"] = draw(st.sampled_from(["solved", "solved", "targeted"]))
+    base["seq"] = draw(st.lists(st.sampled_from([list(o) for o in OPTS]), min_size=1, max_size=2))
+    if [True, True] not in base["seq"]:
+        base["seq"].append([True, True])
+    return base
+
+
 def _exhaustive(quick):
     def cases(shard, nshards):
         k = 0
@@ -184,5 +194,6 @@ def subs(tier: str):
         Sub("exhaustive<=3x3", check, "exhaustive", cases=_exhaustive(q), exhaustive_flag=not q),
         Sub("random", check, "hypothesis", strategy=lambda: _random(12 if q else 20), examples=80 if q else 1200),
         Sub("any-valid-solution-exhaustive<=2x3", check, "exhaustive", cases=_exhaustive_walks, exhaustive_flag=True),
+        Sub("large-grids-int8", check, "hypothesis", strategy=lambda: _big(False), examples=3 if q else 40),
         Sub("any-valid-solution-random", check, "hypothesis", strategy=lambda: _random_walk(8 if q else 14), examples=60 if q else 1000),
     ]
